@@ -52,10 +52,13 @@ import (
 	dbm "github.com/bytom/bytom/database/leveldb"
 	"github.com/bytom/bytom/errors"
 	"github.com/bytom/bytom/protocol/bc"
+	"verifharness/c24/wsim"
 	. "verifharness/hlib"
 )
 
-func main() { Main("C26", runC26, map[string]func([]string) int{"stress": stressChild}) }
+func main() {
+	Main("C26", runC26, map[string]func([]string) int{"stress": stressChild, "batch": wsim.ChildBatch})
+}
 
 // ---- vocabulary -------------------------------------------------------------------
 
@@ -1337,6 +1340,54 @@ func fixedCases() []*genCase {
 	return out
 }
 
+// walletStage: the keeper behind a REAL wallet on a real node (scenario engine harness/c24/wsim, child
+// processes).  "pool" stream: transactions reach the node's pool before their block, the wallet's pool
+// message loop (AddUnconfirmedTx / RemoveUnconfirmedTx) lags behind the chain by a generated number of
+// node events, later blocks spend the outputs, reorganisations put transactions back into the pool.
+// After every delivery the account manager's own keeper is asked with useUnconfirmed = true (findUtxos,
+// Reserve by amount for everything offered, ReserveParticular for every id the db or the unconfirmed map
+// knows).  Direct oracle, once the wallet has handled every pool message: every output a reservation
+// holds is an unspent output of the wallet's chain (the real UtxoViewpoint) or is created by a
+// transaction that is in the node's pool right now (class=spent-or-unknown-output-offered).  Oracle
+// only: the model of C26 takes the content of the db and of the unconfirmed map as inputs.
+func walletStage(c *Ctx) error {
+	var cases []*wsim.Case
+	cases = append(cases, &wsim.Case{ID: 0, Seed: 1, Kind: "corpus-pool-spent-later"})
+	for i, n := 0, c.N(36, 100); i < n; i++ {
+		cases = append(cases, &wsim.Case{ID: len(cases), Seed: c.Rng.Next(), Kind: "pool"})
+	}
+	res, err := wsim.RunAll("c26", cases)
+	if err != nil {
+		return err
+	}
+	for _, cs := range cases {
+		r := res[cs.ID]
+		if r == nil {
+			return fmt.Errorf("no result for wallet case %d", cs.ID)
+		}
+		descr := map[string]interface{}{"stage": "wallet", "id": cs.ID, "kind": cs.Kind, "seed": cs.Seed, "descr": r.Descr}
+		c.Stats.Count("wallet-stage:kind:" + cs.Kind)
+		if r.Panic != "" || r.Hang {
+			what := "class=crash: the node/wallet process died: " + r.Panic
+			if r.Hang {
+				what = "class=hang: no answer within 300 s"
+			}
+			c.Stats.Fail(what, descr)
+			continue
+		}
+		for k, v := range r.Count {
+			if strings.HasPrefix(k, "pool:") || strings.HasPrefix(k, "obs:unconfirmed") || strings.HasPrefix(k, "obs:record-and") {
+				c.Stats.Distribution["wallet-stage:"+k] += v
+			}
+		}
+		for _, f := range r.Fails26 {
+			c.Stats.Fail(f, descr)
+			c.Stats.Count("oracle-failure:" + strings.SplitN(strings.TrimPrefix(f, "class="), ":", 2)[0])
+		}
+	}
+	return nil
+}
+
 func runC26(c *Ctx) error {
 	for _, g := range fixedCases() {
 		runCase(c, g)
@@ -1361,6 +1412,9 @@ func runC26(c *Ctx) error {
 		}
 	}
 	if err := stressStage(c); err != nil {
+		return err
+	}
+	if err := walletStage(c); err != nil {
 		return err
 	}
 	c.Stats.Rule = "a case is a universe of 3..14 outputs (two accounts, two assets, three vote keys incl. nil/empty; amounts mostly 1..5 so that ties are the rule, or 1..30, or ~2^60, or ~2^63 so that uint64 sums wrap; valid heights around the current height 100) placed in the wallet DB, the contract DB, the unconfirmed map or both DB and unconfirmed map (25% of the outputs), and 4..31 operations: Reserve (amount 0, tiny, up to the total, total+0..2, 2^64-1), ReserveParticular (incl. unknown outputs), Cancel (live, dead, unknown ids), expireReservation, AddUnconfirmedUtxo, RemoveUnconfirmedUtxo, DB put/delete (confirming an unconfirmed output creates the overlap), height changes; distinct = distinct (universe, sequence); non-trivial = at least two successful reservations, one of them holding >= 2 outputs; after every operation the implementation's results and bookkeeping are checked against the property (distinct, real, matching, mature, unreserved outputs; sum >= request; change = excess; result class from the funds; live reservations pairwise disjoint; reserved map exact); every third case is replayed split over 4 goroutines, and 40 (thorough 150) stress runs of 4 goroutines x 120 (300) Reserve/Cancel/ReserveParticular calls on one keeper over 16..27 outputs are released together, with the scheduling-independent part of the oracle (cover of every success, exact insufficient/immature, disjointness and reserved map on snapshots, final live set = returned and not cancelled); the per-operation results and the final bookkeeping are compared with the Coq model"
